@@ -15,7 +15,7 @@ STUBS = ['controller processes, creator process, the timer callback (brackets it
 ASSUMPTIONS = ['restart() after stop() and restart() of an expired one-shot timer outside its callback are unspecified: '
                'afterwards only "nothing raises" is demanded for that timer',
                'timeouts are chosen so that t0 + timeout > t0 in floating point']
-PROBES = ['drained_to_the_end_of_time', 'restart_from_callback', 'stop_from_callback', 'stop_at_expiry_instant_before_firing',
+PROBES = ['timer_rearmed_from_its_callback_a_thousand_times', 'timer_acted_on_from_another_timers_callback', 'drained_to_the_end_of_time', 'restart_from_callback', 'stop_from_callback', 'stop_at_expiry_instant_before_firing',
           'op_at_expiry_instant_after_firing', 'two_restarts_one_instant', 'nasty_expiry', 'auto_restart_fired_ge3',
           'scalar_args', 'kwargs', 'restart_pending', 'stop_pending']
 
@@ -63,6 +63,9 @@ def gen(rng, tier):
                     tm['incb'][str(fi)] = [['restart', rng.choice(pool)]]
                 else:
                     tm['incb'][str(fi)] = [['restart', rng.choice(pool)], ['restart', rng.choice(pool)]]
+                if nt >= 2 and rng.random() < 0.4:
+                    other = 'T%d' % ((k + 1) % nt)
+                    tm['incb'][str(fi)] = [(op + [None] if len(op) < 2 else op) + [other] for op in tm['incb'][str(fi)]]
         timers.append(tm)
     ctls = []
     for c in range(rng.choice([0, 1, 1, 2, 3])):
@@ -75,13 +78,26 @@ def gen(rng, tier):
             else:
                 ops.append([d, 'restart', tid, rng.choice(pool)])
         ctls.append({'id': 'c%d' % c, 'ops': ops})
+    if poolname == 'GRID' and rng.random() < 1 / 150:
+        # a long life: a one-shot timer re-armed from its own callback well over a thousand times
+        timers[0]['auto'] = False
+        timers[0]['timeout'] = 0.25
+        timers[0]['incb'] = {}
+        timers[0]['incb_all'] = [['restart', 0.25]]
+        timers[0]['incb_n'] = rng.randint(1050, 1300)
+        long_life = True
+    else:
+        long_life = False
     order = [t['id'] for t in timers] + [c['id'] for c in ctls]
     rng.shuffle(order)
     if poolname == 'ABSORB':
         for t in timers:
             t['auto'] = False
-    return {'engine': 'T', 'pool': poolname, 't0': t0, 'timers': timers, 'ctls': ctls, 'order': order,
+    case = {'engine': 'T', 'pool': poolname, 't0': t0, 'timers': timers, 'ctls': ctls, 'order': order,
             'horizon': t0 + rng.choice([6, 10, 15])}
+    if long_life:
+        case['horizon'] = t0 + 400
+    return case
 
 
 def _absorbed(case, x):
@@ -149,8 +165,13 @@ class World:
             k = self.fired.get(tid, 0)
             self.fired[tid] = k + 1
             self.rec('CB', tid, 'enter', k, san(args), san(kwargs))
-            for op in (tm.get('incb') or {}).get(str(k), []):
-                self.do('cb:' + tid, tid, op, 'in-callback')
+            ops_now = (tm.get('incb') or {}).get(str(k), [])
+            if not ops_now and tm.get('incb_all') and k < tm.get('incb_n', 0):
+                ops_now = tm['incb_all']       # a timer that re-arms itself from its callback, firing after firing
+            for op in ops_now:
+                # optional third field: the callback acts on another timer (a watchdog kicked by a keep-alive timer)
+                target = op[2] if len(op) > 2 and op[2] else tid
+                self.do('cb:' + tid, target, op, 'in-callback' if target == tid else 'callback-of-another-timer')
             self.rec('CB', tid, 'exit', k, None, None)
         return cb
 
@@ -208,6 +229,8 @@ def run(case):
             w.rec('ERR', san(e))
         n += 1
     viol, stats, nontrivial = check(w, case, H)
+    if any(t.get('incb_all') for t in case.get('timers', [])):
+        stats['timer_rearmed_from_its_callback_a_thousand_times'] = 1
     if case.get('pool') == 'OVERFLOW' and not any(t.get('auto') for t in case.get('timers', [])):
         # nothing periodic: the run must come to an end, also at the end of time
         stats['drained_to_the_end_of_time'] = 1
@@ -269,6 +292,8 @@ def check(w, case, H):
             incb = s['incb'] is not None
             if s['fired_at'] == now and not incb:
                 stats['op_at_expiry_instant_after_firing'] = 1
+            if where == 'callback-of-another-timer':
+                stats['timer_acted_on_from_another_timers_callback'] = 1
             if op == 'stop':
                 if s['E'] is not None:
                     nontrivial = True
